@@ -246,6 +246,30 @@ func c16KeywordCases() []c16Case {
 	return res
 }
 
+// long tokens: the same long literal (identifier, number, string, raw string, line and block comment, illegal run) twice in
+// one input and again in another input; equal tokens must be one shared object whatever their length
+func c16LongTokenCases() []c16Case {
+	var res []c16Case
+	add := func(s string) { res = append(res, c16Case{s, false}, c16Case{s, true}) }
+	for _, n := range []int{16, 33, 63, 64, 65, 66, 129, 257} {
+		id := "id" + strings.Repeat("x", n-2)
+		num := strings.Repeat("7", n)
+		flt := "0." + strings.Repeat("3", n-2)
+		str := `"` + strings.Repeat("s", n) + `"`
+		raw := "`" + strings.Repeat("r", n) + "`"
+		lc := "//" + strings.Repeat("c", n)
+		bc := "/*" + strings.Repeat("b", n) + "*/"
+		for _, t := range []string{id, num, flt, str, raw, bc} {
+			add(t + " " + t)
+			add(t)
+		}
+		add(lc + "\n" + lc)
+		add(lc)
+		add(`"` + strings.Repeat("u", n)) // unterminated
+	}
+	return res
+}
+
 // seeded random token-rich inputs (longer than the exhaustive bound)
 func c16Random(c *Ctx, n int) []c16Case {
 	r := c.Rng
@@ -726,9 +750,10 @@ func checkC16(c *Ctx) {
 	exh := c16Exhaustive(L)
 	kws := c16KeywordCases()
 	rnd := c16Random(c, c.Pick(5000, 100000))
-	cases := make([]c16Case, 0, len(exh)+len(kws)+len(rnd))
+	cases := make([]c16Case, 0, len(exh)+len(kws)+len(rnd)+800)
 	cases = append(cases, exh...)
 	cases = append(cases, kws...)
+	cases = append(cases, c16LongTokenCases()...)
 	cases = append(cases, rnd...)
 	report := func(idxs []int, sig, what string) {
 		var l []any
